@@ -634,8 +634,15 @@ func (w *World) Exec(line string) string {
 		}
 		w.NewInst(i, buf.Bytes(), true)
 		return w.Dump(i)
-	case "mutes", "imutes":
+	case "mutes", "imutes", "cmutes":
 		w.SleepTo(hx.Atoi64(t[2]))
+		ctx := ctx
+		if t[0] == "cmutes" {
+			// the caller is gone: a cancelled context must not change what the call does to the cache
+			c, cancel := context.WithCancel(ctx)
+			cancel()
+			ctx = c
+		}
 		ls := ParseLs(strings.TrimPrefix(t[3], "L"))
 		mk := marker.NewAlertMarker()
 		var muted bool
